@@ -101,6 +101,13 @@ class StubConverter:
             raise ConverterBoom("before output")
         if self.outcome == "ret_missing":
             return out          # well-typed, but nothing was produced
+        if self.outcome == "ok_empty":
+            out.write_bytes(b"")    # the converter succeeded with an empty file: that is its output
+            if format == "html":
+                res = out.with_name(out.name + "_files")
+                res.mkdir()
+                (res / "img1.png").write_bytes(b"PNG")
+            return out
         out.write_bytes(b"CONVERTED:" + format.encode() + b":" + src.read_bytes())
         if format == "html":
             res = out.with_name(out.name + "_files")
@@ -199,7 +206,8 @@ def run_one(sc):
             os.makedirs(parent)
             with open(os.path.join(parent, "neighbour.txt"), "w") as f:
                 f.write("keep")
-        target = os.path.join(parent, "report." + _ext(writer))
+        tname = s.get("tname", "std")
+        target = os.path.join(parent, "report" + {"std": "." + _ext(writer), "htm": ".htm", "noext": ""}[tname])
         if s["target0"] == "old":
             with open(target, "wb") as f:
                 f.write(b"OLD CONTENT \x00\xff")
@@ -300,6 +308,8 @@ def run_one(sc):
             expected = _sha(expected_rtf.encode("utf-8"))
         else:
             expected = _sha(b"CONVERTED:" + _ext(writer).encode() + b":" + expected_rtf.encode("utf-8"))
+            if s["conv"] == "ok_empty":
+                expected = _sha(b"")
         rec["c"] = {"writer": writer, "target0": s["target0"], "conv": s["conv"], "converter": s["converter"], "fault": s["fault"],
                     "flavour": s["flavour"], "outcome": outcome, "exc": exc, "before": before, "after": after, "expected": expected,
                     "resources": ["report.html_files"] if writer == "html" else [],
